@@ -12,21 +12,11 @@ import (
 var safetyTags = []string{"C03", "safety"}
 
 func (fr *frame) safetyTags() []string {
-	t := append([]string{}, safetyTags...)
-	if fr.c != nil {
-		for _, p := range fr.c.Props {
-			if p != "C03" {
-				t = append(t, p)
-			}
-		}
-	} else if fr.fx.c != nil {
-		for _, p := range fr.fx.c.Props {
-			if p != "C03" {
-				t = append(t, p)
-			}
-		}
+	// runtime-panic freedom belongs to C03 (parser, lexer, token, char) or C04 (package ast)
+	if fr.fn.Pkg != nil && fr.fn.Pkg.Pkg.Name() == "ast" {
+		return []string{"C04", "safety"}
 	}
-	return t
+	return safetyTags
 }
 
 func (fr *frame) exec(instr ssa.Instruction, st *State) {
@@ -309,11 +299,14 @@ func (fr *frame) mapLookup(x *ssa.Lookup, st *State) Val {
 	if !ok {
 		panic(unsupported("map lookup with non-string key"))
 	}
-	f := fx.s.declFun("member!"+name, []Sort{arrOf(SInt), SInt, SInt}, SBool)
-	okT := app(f, key.Arr, key.Off, key.Len)
-	fx.g.trustedUsed["map lookup "+name+" (membership predicate, read-only after init)"] = true
-	if fx.g.keywordSet != nil && name == "token.KeywordsMap" {
+	var okT string
+	if name == "token.KeywordsMap" {
 		okT = fx.keywordMember(key)
+		fx.g.trustedUsed["token.KeywordsMap == set(token.Keywords literal), read-only after init"] = true
+	} else {
+		f := fx.s.declFun("member!"+name, []Sort{arrOf(SInt), SInt, SInt}, SBool)
+		okT = app(f, key.Arr, key.Off, key.Len)
+		fx.g.trustedUsed["map lookup "+name+" (membership predicate, read-only after init)"] = true
 	}
 	elemT := x.X.Type().Underlying().(*types.Map).Elem()
 	if x.CommaOk {
@@ -569,7 +562,8 @@ func (fx *fnExec) strEq(a, b StrV) string {
 		ks := num(int64(k))
 		cs = append(cs, implies(app("<", ks, a.Len), eq(sel(a.Arr, add(a.Off, ks)), sel(b.Arr, add(b.Off, ks)))))
 	}
-	rest := fx.s.fresh("streq!rest", SBool)
+	restF := fx.s.declFun("streq!rest", []Sort{arrOf(SInt), SInt, SInt, arrOf(SInt), SInt, SInt}, SBool)
+	rest := app(restF, a.Arr, a.Off, a.Len, b.Arr, b.Off, b.Len)
 	cs = append(cs, implies(app(">", a.Len, num(strEqBound)), rest))
 	// the same backing bytes are equal whatever their length
 	same := and(eq(a.Arr, b.Arr), eq(a.Off, b.Off), eq(a.Len, b.Len))
